@@ -1,8 +1,11 @@
 import PpciVerif.Model.WasmRt
 import PpciVerif.Spec.WasmInt
 import PpciVerif.Proofs.WasmInt
+import PpciVerif.Spec.Wasm
+import PpciVerif.Proofs.Wasm
 /-!
-# C22 — WebAssembly execution follows the specification: PARTIAL (integer runtime helpers)
+# C22 — WebAssembly execution follows the specification: PARTIAL
+(integer runtime helpers + meta-properties of the reference interpreter)
 
 What is proved: every *integer* helper of `ppci/wasm/execution/runtime.py`
 (`i32/i64_rotl`, `rotr`, `clz`, `ctz`, `popcnt`, `i32_extend8_s/16_s`,
@@ -13,7 +16,16 @@ corresponding operator of the WebAssembly specification (`Spec.WasmInt`, on
 `iN` values the arguments denote, read back as a signed integer (rotations,
 extensions) or as a count.
 
-What is NOT proved (and not claimed): see `execution_conforms_full`.
+Second part (section "reference interpreter"): facts about `Spec.Wasm`, the executable reading
+of the specification against which whole modules are compared on every run — the outcome of a
+terminating execution does not depend on the fuel, `i32.eqz` of an integer comparison is the
+opposite comparison (the law a translator may use), the same law is FALSE for the ordered float
+comparisons as soon as an operand is NaN (proved for all operands, with concrete witnesses),
+trapping rules of the division operators, count masking of the shifts.
+
+What is NOT proved (and not claimed): see `execution_conforms_full`.  Conformance of ppci's two
+execution targets on whole modules is established only by the sampled correspondence of
+harness/c22.py (operator matrix, patterns, random programs against `Spec.Wasm`).
 -/
 namespace Props.C22
 open Spec.Bits Spec.WasmInt Model.WasmRt Model.Bitfun Proofs.Bits Proofs.Bitfun Proofs.WasmInt
@@ -137,5 +149,87 @@ example : i32_rotl (-2147483648) 1 = .ok 1 ∧ (irotl (ofSigned 32 (-2147483648)
 example : i32_rotr 1 (-31) = .ok (-2147483648) := by decide
 example : i64_clz (-1) = .ok 0 ∧ i32_clz 0 = .ok 32 ∧ i64_ctz 0 = 64 ∧ i32_popcnt (-1) = 32 := by decide
 example : i32_extend8_s 0x1280 = .ok (-128) ∧ (iextend_s 8 (ofSigned 32 0x1280)).toInt = -128 := by decide
+
+/-! ## reference interpreter `Spec.Wasm`: meta-properties and operator laws -/
+
+section Interp
+open Spec.Wasm Proofs.Wasm
+
+/-- more fuel never changes a terminated outcome -/
+theorem interp_fuel_monotone (m : Module) (n k : Nat) (c : Config) (r : Outcome)
+    (h : run m n c = r) (hr : r ≠ .outOfFuel) : run m (n + k) c = r := run_mono m n k c r h hr
+
+/-- two terminating runs of the same configuration agree, whatever their fuel (determinism of the big-step outcome) -/
+theorem interp_outcome_unique (m : Module) (n k : Nat) (c : Config) (r₁ r₂ : Outcome)
+    (h₁ : run m n c = r₁) (h₂ : run m k c = r₂) (hr₁ : r₁ ≠ .outOfFuel) (hr₂ : r₂ ≠ .outOfFuel) : r₁ = r₂ :=
+  run_fuel_irrelevant m n k c r₁ r₂ h₁ h₂ hr₁ hr₂
+
+/-- the same for the invocation of an exported function -/
+theorem invoke_fuel_monotone (m : Module) (s : Store) (fi : Nat) (args : List Value) (n k : Nat) (r : Outcome)
+    (h : invoke m s fi args n = r) (hr : r ≠ .outOfFuel) : invoke m s fi args (n + k) = r :=
+  invoke_mono m s fi args n k r h hr
+
+/-- `i32.eqz` of an integer comparison is the opposite comparison, for every width and all operands -/
+theorem int_eqz_of_comparison {n : Nat} (a b : BitVec n) :
+    ieqz (ilt_s a b) = ige_s a b ∧ ieqz (ilt_u a b) = ige_u a b ∧ ieqz (igt_s a b) = ile_s a b ∧ ieqz (igt_u a b) = ile_u a b ∧
+    ieqz (ile_s a b) = igt_s a b ∧ ieqz (ile_u a b) = igt_u a b ∧ ieqz (ige_s a b) = ilt_s a b ∧ ieqz (ige_u a b) = ilt_u a b ∧
+    ieqz (ieq a b) = ine a b ∧ ieqz (ine a b) = ieq a b :=
+  ⟨ieqz_ilt_s a b, ieqz_ilt_u a b, ieqz_igt_s a b, ieqz_igt_u a b, ieqz_ile_s a b, ieqz_ile_u a b, ieqz_ige_s a b, ieqz_ige_u a b,
+   ieqz_ieq a b, ieqz_ine a b⟩
+
+/-- every ordered float comparison with a NaN operand is 0, `eq` is 0, `ne` is 1 (f32: `mb = 23`, f64: `mb = 52`) -/
+theorem float_comparison_nan {n : Nat} (mb : Nat) (a b : BitVec n) (h : fIsNaN mb a = true ∨ fIsNaN mb b = true) :
+    feq mb a b = 0 ∧ fne mb a b = 1 ∧ flt mb a b = 0 ∧ fgt mb a b = 0 ∧ fle mb a b = 0 ∧ fge mb a b = 0 :=
+  h.elim (fcmp_nan_left mb a b) (fcmp_nan_right mb a b)
+
+/-- … therefore a translation may NOT replace `eqz (a < b)` by `a >= b` for floats: with a NaN operand they differ -/
+theorem float_eqz_of_ordered_comparison_differs {n : Nat} (mb : Nat) (a b : BitVec n)
+    (h : fIsNaN mb a = true ∨ fIsNaN mb b = true) :
+    ieqz (flt mb a b) ≠ fge mb a b ∧ ieqz (fgt mb a b) ≠ fle mb a b ∧ ieqz (fle mb a b) ≠ fgt mb a b ∧ ieqz (fge mb a b) ≠ flt mb a b :=
+  feqz_ordered_ne_negated mb a b h
+
+/-- `eq`/`ne` can be folded for floats too -/
+theorem float_eqz_of_eq {n : Nat} (mb : Nat) (a b : BitVec n) : ieqz (feq mb a b) = fne mb a b := ieqz_feq mb a b
+
+/-- division and remainder trap exactly for a zero divisor (and `div_s` for the overflow) -/
+theorem division_traps {n : Nat} (a b : BitVec n) :
+    idiv_u a 0 = none ∧ idiv_s a 0 = none ∧ irem_u a 0 = none ∧ irem_s a 0 = none ∧
+    (b ≠ 0 → idiv_u a b = some (a / b) ∧ irem_u a b = some (a % b) ∧ irem_s a b = some (a.srem b)) :=
+  ⟨idiv_u_zero a, idiv_s_zero a, irem_u_zero a, irem_s_zero a,
+   fun h => ⟨idiv_u_defined a b h, irem_u_defined a b h, irem_s_defined a b h⟩⟩
+
+/-- shifts only look at the count modulo the width -/
+theorem shift_count_masked {n : Nat} (a b c : BitVec n) (h : b.toNat % n = c.toNat % n) :
+    ishl a b = ishl a c ∧ ishr_u a b = ishr_u a c ∧ ishr_s a b = ishr_s a c :=
+  ⟨ishl_count a b c h, ishr_u_count a b c h, ishr_s_count a b c h⟩
+
+/-! ### witnesses (non-vacuity, and the negation for floats on concrete operands) -/
+
+/-- f64: NaN `0x7ff8000000000000`, one `0x3ff0000000000000` -/
+example : ieqz (flt 52 0x7ff8000000000000#64 0x3ff0000000000000#64) = 1 ∧ fge 52 0x7ff8000000000000#64 0x3ff0000000000000#64 = 0 := by decide
+example : ieqz (fgt 23 0x3f800000#32 0x7fc00000#32) = 1 ∧ fle 23 0x3f800000#32 0x7fc00000#32 = 0 := by decide
+example : fIsNaN 52 0x7ff8000000000000#64 = true ∧ fIsNaN 52 0x7ff0000000000000#64 = false ∧ fIsNaN 23 0xffc00001#32 = true := by decide
+/-- non-NaN operands: -0 = +0, -1 < 0.5 -/
+example : feq 52 0x8000000000000000#64 0#64 = 1 ∧ flt 52 0xbff0000000000000#64 0x3fe0000000000000#64 = 1 ∧
+    ieqz (flt 52 0xbff0000000000000#64 0x3fe0000000000000#64) = fge 52 0xbff0000000000000#64 0x3fe0000000000000#64 := by decide
+/-- signed zeros of min/max, NaN propagation -/
+example : fmin 52 0#64 0x8000000000000000#64 = 0x8000000000000000#64 ∧ fmax 52 0x8000000000000000#64 0#64 = 0#64 ∧
+    fmin 23 0x7fc00000#32 0x3f800000#32 = 0x7fc00000#32 := by decide
+/-- INT_MIN / -1 traps, INT_MIN rem -1 = 0, 7 / 0 traps, -7 / 2 = -3, -7 rem 2 = -1 -/
+example : idiv_s (0x80000000#32) (0xffffffff#32) = none ∧ irem_s (0x80000000#32) (0xffffffff#32) = some 0 ∧
+    idiv_s (7#32) 0 = none ∧ idiv_s (0xfffffff9#32) 2 = some 0xfffffffd#32 ∧ irem_s (0xfffffff9#32) 2 = some 0xffffffff#32 := by decide
+example : idiv_s (0x8000000000000000#64) (0xffffffffffffffff#64) = none ∧ irem_s (0x8000000000000000#64) (0xffffffffffffffff#64) = some 0 := by decide
+/-- shift by 33 = shift by 1 -/
+example : ishl (1#32) (33#32) = 2#32 ∧ ishr_s (0x80000000#32) (33#32) = 0xc0000000#32 ∧ ishr_u (0x80000000#32) (0xffffffff#32) = 1#32 := by decide
+example : ilt_s (0x80000000#32) (1#32) = 1 ∧ ilt_u (0x80000000#32) (1#32) = 0 ∧ ieqz (ilt_s (0x80000000#32) (1#32)) = ige_s (0x80000000#32) (1#32) := by decide
+
+/-- a whole (tiny) execution by kernel evaluation: `(i32.const 7) (i32.const 0) i32.div_u` traps,
+    `block (result i32) (i32.const 1) (i32.const 5) (br 0) end` leaves 5 -/
+example : (match run {} 10 { store := {}, locals := #[], stack := [], code := [.const (.i32 7), .const (.i32 0), .ibin .w32 .div_u],
+                               labels := [], arity := 1, frames := [] } with | .trap _ _ => true | _ => false) = true := by decide
+example : (match run {} 10 { store := {}, locals := #[], stack := [], code := [.block 0 1 [.const (.i32 1), .const (.i32 5), .br 0]],
+                               labels := [], arity := 1, frames := [] } with | .values [.i32 5] _ => true | _ => false) = true := by decide
+
+end Interp
 
 end Props.C22
